@@ -80,3 +80,34 @@ def check_exits(ctx, prop, extra=()):
                 d = normal.stmt_blind(ast.Expr(value=n.value), loc)[0]
                 if d not in allowed and False:
                     pass
+
+
+def check_helpers(ctx, prop, extra=()):
+    """HELPERS: functions one call away from the property's anchored code that NO obligation looks at must still be their reference
+    version up to the behaviour-preserving rewrites of sa/normal.py (renaming, temporaries, conditional spelling, helper inlining ...).
+    The property's functions are only as right as what they delegate to, and for these helpers there is no rule that could tell a
+    harmless edit from a harmful one - so an edit the normaliser cannot explain away is reported."""
+    import json, os
+    ref = normal.reference().get('functions', {})
+    covered = set()
+    ap = os.path.join(os.path.dirname(os.path.dirname(os.path.abspath(__file__))), 'anchors.json')
+    if os.path.exists(ap):
+        for v in json.load(open(ap)).values():
+            covered.update(v)
+    for k in extra:
+        s_ = '%s:%s%s' % (k[0], (k[1] + '.') if k[1] else '', k[2])
+        if s_ in covered or s_ not in ref or k[0] in ('_logger', '_file', '_tree_repr', '_encode', '_parquet') or k[2].startswith('__repr') or k[2] == '__str__':
+            continue
+        try:
+            fn = ctx.repo.fn(s_)
+        except AnalysisError:
+            continue
+        ctx.count(1, fn.where())
+        if getattr(fn.node, '_drift', False):
+            # name the first statement whose name-blind digest the reference does not have
+            loc = set(normal.local_names(fn.node))
+            have = {d for d, _ in ref[s_].get('stmts', [])}
+            odd = [x for x in normal.statements(fn.node) if normal.stmt_blind(x, loc)[0] not in have]
+            site = odd[0] if odd else fn.node
+            ctx.fail(fn, site if hasattr(site, 'lineno') else fn.node, 'helper %s, which %s relies on and no obligation covers, differs from its confirmed version in a way the normaliser cannot explain as a behaviour-preserving rewrite: `%s`' % (
+                fn.qual, prop, U(site)[:100] if odd else 'a statement was removed'), stmt=site if odd else 'removed statement in %s' % fn.qual)
